@@ -85,6 +85,11 @@ CHECKS = {
    technique="TLA+ statement of the documented JSON schema and of the cross-field consistency rules (Trace_Report.tla, hex strings parsed and subtracted on limbs) evaluated by TLC on every report recorded from the real print_json; lexical validity by from_utf8 + serde_json",
    text="No state space: the specification is a library of predicates (Schema, HexW, Counts, Offsets, CrashingThreadCopy, ModulesMirror) that TLC evaluates on the projected JSON of every report the corpus and the Processor.tla cases produce, with the library's own module list passed alongside for the mirror check.",
    note="Trusted: TLC, Trace_Report.tla (transcription of json-schema.md), the JSON projection in record_process.rs, serde_json for lexical validity. Sampled inputs; function_offset is only bounded by module_offset."),
+ "C16": dict(
+   level="model_checking", design_ref="DESIGN.md section 5 'C16'",
+   technique="TLA+ model of the download-and-cache protocol (HttpCache.tla: one action per await point and file-system effect, per-URL fault scripts, drop points, pre-existing entries, unusable directories, sym and file kinds) model-checked by TLC for one client and for two clients racing on one cache path; every terminal behaviour replayed on the real HttpSymbolSupplier against scripted raw-TCP loopback servers, with cache/ and tmp/ read back byte for byte and an offline repeat of the lookup",
+   text="TLC checks CacheComplete, NoStrayTemp and NoEntryOnFailure in every state, including every interleaving of two clients' remove/persist steps. Each terminal behaviour (environment x per-URL script) is then played on the real supplier under several wire concretisations (Content-Length / chunked, chunk boundaries at line ends / mid-line); the model's terminal state predicts the lookup result, which URLs were asked, the exact bytes of the cache entry (body followed by the INFO URL note) and an empty tmp/. An offline supplier must then return the same symbol table and URL from the cache alone. Hostile module names must not move any write outside cache/ and tmp/.",
+   note="Trusted: TLC, HttpCache.tla, replay_httpcache.rs (the scripted server and the directory read-back), reqwest/hyper as the HTTP client. Cross-process races are model-checked, not executed; close-delimited bodies are excluded (no client can tell a cut from the end)."),
  "C20": dict(
    level="model_checking", design_ref="DESIGN.md section 5 'C20'",
    technique="TLA+ option machine of minidump-stackwalk (Cli.tla) model-checked by TLC (failing runs are silent, successful runs have exactly one primary report, cyborg output only with --cyborg); every option combination x input class executed on the built binary and compared with reports produced in-process by the library",
